@@ -208,11 +208,14 @@ PROPS['C02'] = {
     'min_nontrivial': [200, 2000],
     'require_classes': ['future_mt:waiter_parked_before_resolution', 'future_mt:waiter_lost_subscribe_race_to_ready', 'future_async_mt:waiter_parked_before_resolution',
                         'future_async_mt:waiter_lost_subscribe_race_to_ready'],
+    'single_thread_scenarios': ('frame_owned_parties',),
     'jobs': [
         J('mt_rel', 'c02.cpp', 'rel', [300000, 20000000], scenario='future_mt,future_async_mt', threads=6),
         J('mt_asan', 'c02.cpp', 'asan', [50000, 3000000], scenario='future_mt,future_async_mt', threads=6),
         J('mt_crel', 'c02.cpp', 'crel', [0, 10000000], scenario='future_mt,future_async_mt', threads=6, tiers=(T,)),
         J('mt_casan', 'c02.cpp', 'casan', [0, 1500000], scenario='future_mt,future_async_mt', threads=6, tiers=(T,)),
+        J('owned_asan', 'c02.cpp', 'asan', [3000, 150000], scenario='frame_owned_parties', threads=1),
+        J('owned_rel', 'c02.cpp', 'rel', [3000, 300000], scenario='frame_owned_parties', threads=1),
     ],
 }
 
@@ -235,7 +238,7 @@ PROPS['C03'] = {
     'ignore_key': r'^C03\|[a-z_]+\|monitor:',
     'min_nontrivial': [200, 2000],
     'jobs': [J(s, 'c03.cpp', 'tsan', [q, t], scenario=s, threads=th, detect_leaks=0) for (s, th, q, t) in _C03_SCEN]
-            + [J(s + '_assert', 'c03.cpp', 'tsanassert', [0, t // 2], scenario=s, threads=th, tiers=(T,)) for (s, th, q, t) in _C03_SCEN]
+            + [J(s + '_assert', 'c03.cpp', 'tsanassert', [max(1500, q // 3), t // 2], scenario=s, threads=th, detect_leaks=0) for (s, th, q, t) in _C03_SCEN]  # library asserts read shared state too (D11, D17)
             + [J(s + '_clang', 'c03.cpp', 'ctsan', [0, t // 2], scenario=s, threads=th, tiers=(T,)) for (s, th, q, t) in _C03_SCEN],
 }
 
@@ -296,7 +299,7 @@ PROPS['C04'] = {
              'throwing level, finishing thread).'),
     'min_nontrivial': [150, 1000],
     'require_classes': ['async_start_race:coroutine_won_the_promise', 'async_start_race:competing_call_won_the_promise'],
-    'single_thread_scenarios': ('async_programs',),
+    'single_thread_scenarios': ('async_programs', 'frame_owned_parties'),
     'jobs': [
         J('prog_asan', 'c04.cpp', 'asan', [40000, 2000000], scenario='async_programs', threads=1),
         J('prog_rel', 'c04.cpp', 'rel', [40000, 3000000], scenario='async_programs', threads=1),
@@ -304,6 +307,9 @@ PROPS['C04'] = {
         J('race_rel', 'c04.cpp', 'rel', [300000, 15000000], scenario='async_start_race', threads=2),
         J('prog_casan', 'c04.cpp', 'casan', [0, 1000000], scenario='async_programs', threads=1, tiers=(T,)),
         J('prog_crel', 'c04.cpp', 'crel', [0, 2000000], scenario='async_programs', threads=1, tiers=(T,)),
+        J('owned_asan', 'c04.cpp', 'asan', [3000, 150000], scenario='frame_owned_parties', threads=1),
+        J('owned_rel', 'c04.cpp', 'rel', [3000, 300000], scenario='frame_owned_parties', threads=1),
+        J('owned_casan', 'c04.cpp', 'casan', [0, 100000], scenario='frame_owned_parties', threads=1, tiers=(T,)),
     ],
 }
 
